@@ -87,10 +87,12 @@ Section SetOps.
       let t := union_loop ut (in_ordered i) (set_nonempty S (u_table u)) (in_entries i) in
       Some (mk_union t (N.min ut (theta t)) (u_sh u)).
 
-  (* get_result(ordered) *)
-  Definition union_result (u : union_st) (ordered : bool) : input :=
+  (* get_result(ordered).  [old] selects the code before fixes/02_union_empty_theta.patch, which reported
+     union_theta_ (the starting theta of a p < 1 union) for a union that saw only empty inputs — an empty sketch
+     with theta < MAX (see Regression_thetaset.v); the repaired code reports MAX_THETA. *)
+  Definition union_result_gen (old : bool) (u : union_st) (ordered : bool) : input :=
     let t := u_table u in
-    if is_empty t then mk_result true true (u_sh u) (u_theta u) []
+    if is_empty t then mk_result true true (u_sh u) (if old then u_theta u else max_theta) []
     else
       let th := N.min (u_theta u) (theta t) in
       let ents := if theta t <=? u_theta u then entries S t
@@ -100,6 +102,8 @@ Section SetOps.
       let th' := if (k <? length ents)%nat then match nth_error l' k with Some p => fst p | None => th end else th in
       let ents' := if (k <? length ents)%nat then firstn k l' else ents in
       mk_result false ordered (u_sh u) th' (if ordered then msort fst ents' else ents').
+
+  Definition union_result := union_result_gen false.
 
   Definition union_reset (u : union_st) : union_st :=
     mk_union (reset S (u_table u)) (theta0 (u_table u)) (u_sh u).
@@ -175,8 +179,11 @@ Section SetOps.
         end
     end.
 
-  (* update(sketch); None = throws *)
-  Definition inter_update (x : inter_st) (i : input) : option inter_st :=
+  (* update(sketch); None = throws.
+     [old] selects the code before fixes/02_intersection_empty_order.patch: "no matches and theta == MAX" set
+     table_.is_empty_ inside update(), which made every later input be ignored (the result then depended on the
+     order of the inputs, see Regression_thetaset.v); the repaired code derives that emptiness in get_result(). *)
+  Definition inter_update_gen (old : bool) (x : inter_st) (i : input) : option inter_st :=
     let t := i_table x in
     if is_empty t then Some x
     else if negb (in_empty i) && negb (in_seed_hash i =? i_sh x) then None
@@ -194,7 +201,7 @@ Section SetOps.
       else
         match match_loop th (in_ordered i) t1 (N.min (num t) (in_num i)) (in_entries i) [] with
         | None => None
-        | Some [] => Some (mk_inter true (empty_table th (e || (th =? max_theta))) (i_sh x))
+        | Some [] => Some (mk_inter true (empty_table th (e || (old && (th =? max_theta)))) (i_sh x))
         | Some m =>
             match put_loop (sized_table (N.of_nat (length m)) th e) m with
             | Some t' => Some (mk_inter true t' (i_sh x))
@@ -202,13 +209,18 @@ Section SetOps.
             end
         end.
 
+  Definition inter_update := inter_update_gen false.
+
   (* get_result(ordered); None = throws (no update yet) *)
-  Definition inter_result (x : inter_st) (ordered : bool) : option input :=
+  Definition inter_result_gen (old : bool) (x : inter_st) (ordered : bool) : option input :=
     if negb (i_valid x) then None
     else
       let t := i_table x in
       let ents := if 0 <? num t then entries S t else [] in
-      Some (mk_result (is_empty t) ordered (i_sh x) (theta t) (if ordered then msort fst ents else ents)).
+      let e := is_empty t || (negb old && (num t =? 0) && (theta t =? max_theta)) in
+      Some (mk_result e ordered (i_sh x) (theta t) (if ordered then msort fst ents else ents)).
+
+  Definition inter_result := inter_result_gen false.
 
   Definition inter_has_result (x : inter_st) : bool := i_valid x.
 
@@ -404,8 +416,8 @@ Section SetOps.
   Definition spec_union (k : nat) (th0 : N) (ins : list input) : N * bool * list N :=
     let thm := min_theta th0 ins in
     let V := keys_below thm (all_keys ins) in
-    let e := forallb in_empty ins in
-    if (k <? length V)%nat then (nth k V 0, e, firstn k V) else (thm, e, V).
+    if forallb in_empty ins then (max_theta, true, [])
+    else if (k <? length V)%nat then (nth k V 0, false, firstn k V) else (thm, false, V).
 
   Definition mem (h : N) (l : list N) : bool := existsb (N.eqb h) l.
 
